@@ -34,6 +34,13 @@ def _replay():
     return _W['replay']
 
 
+def _v8():
+    if _W.get('v8') is None:
+        from v8diff import V8Diff
+        _W['v8'] = V8Diff()
+    return _W['v8']
+
+
 def _chunk(args):
     """explore up to max_paths paths below the given prefixes; return summaries + leftover prefixes"""
     (scn_name, scn_args, prefixes, max_paths, tv_every, seed) = args
@@ -43,7 +50,8 @@ def _chunk(args):
     spec = _W['spec']
     scn = spec.make_scenario(scn_name, scn_args)
     out = {'paths': 0, 'ok': 0, 'panic': 0, 'infeasible': 0, 'violations': [], 'samples': [], 'queries': 0, 'solver_s': 0.0,
-           'tv': 0, 'tv_bad': [], 'called': set(), 'modelled': set(), 'hook_paths': 0, 'steps': 0, 'error': None, 'leftover': [], 'decisions': 0, 'obligations': 0, 'panics': []}
+           'tv': 0, 'tv_bad': [], 'called': set(), 'modelled': set(), 'hook_paths': 0, 'steps': 0, 'error': None, 'leftover': [], 'decisions': 0, 'obligations': 0, 'panics': [],
+           'v8': {'compared': 0, 'agree_equal': 0, 'agree_differ': 0, 'model_differs_v8_equal': 0, 'v8_differs_model_equal': 0, 'skipped': 0}, 'v8_bad': [], 'v8_unconfirmed': []}
     work = [list(p) for p in prefixes]
     t0 = time.time()
     try:
@@ -90,6 +98,13 @@ def _chunk(args):
                     out['tv'] += 1
                     if not info['tv']['agree']:
                         out['tv_bad'].append(info['tv'])
+                if info.get('v8') is not None:
+                    out['v8']['compared'] += 1
+                    out['v8'][info['v8']['class']] += 1
+                    if info['v8']['class'] == 'v8_differs_model_equal':
+                        out['v8_bad'].append(info['v8'])
+                    if info['v8']['class'] == 'model_differs_v8_equal' and len(out['v8_unconfirmed']) < 5:
+                        out['v8_unconfirmed'].append({'input': info['v8'].get('input'), 'roles': info['v8'].get('roles')})
                 for v in info.get('violations', []):
                     v['trace'] = list(ctx.trace)
                     out['violations'].append(v)
@@ -124,7 +139,8 @@ class Explorer:
     def explore(self, scn_name, scn_args, chunk=40, tv_every=0, seed=0, deadline=None, max_paths=None):
         """explore the whole decision tree of a scenario; returns merged summary"""
         total = {'paths': 0, 'ok': 0, 'panic': 0, 'infeasible': 0, 'violations': [], 'samples': [], 'queries': 0, 'solver_s': 0.0,
-                 'tv': 0, 'tv_bad': [], 'called': set(), 'modelled': set(), 'hook_paths': 0, 'steps': 0, 'error': None, 'decisions': 0, 'obligations': 0, 'panics': [], 'exhaustive': True, 'cpu_s': 0.0}
+                 'tv': 0, 'tv_bad': [], 'called': set(), 'modelled': set(), 'hook_paths': 0, 'steps': 0, 'error': None, 'decisions': 0, 'obligations': 0, 'panics': [], 'exhaustive': True, 'cpu_s': 0.0,
+                 'v8': {'compared': 0, 'agree_equal': 0, 'agree_differ': 0, 'model_differs_v8_equal': 0, 'v8_differs_model_equal': 0, 'skipped': 0}, 'v8_bad': [], 'v8_unconfirmed': []}
         pending = [[]]
         inflight = []
         first = True
@@ -159,6 +175,11 @@ class Explorer:
                 total['violations'].extend(o['violations'])
                 total['panics'].extend(o['panics'])
                 total['tv_bad'].extend(o['tv_bad'])
+                for k, n in o['v8'].items():
+                    total['v8'][k] += n
+                total['v8_bad'].extend(o['v8_bad'][:3])
+                if len(total['v8_unconfirmed']) < 40:
+                    total['v8_unconfirmed'].extend(o['v8_unconfirmed'])
                 if len(total['samples']) < 6:
                     total['samples'].extend(o['samples'][:2])
                 total['called'] |= set(o['called'])
@@ -192,8 +213,15 @@ def match_known(known, prop, role):
     return None
 
 
+def out_root():
+    """evidence and replays of a run against a scratch copy (VERIF_REPO, used to evaluate seeded changes) do not overwrite
+    those of /repo"""
+    import mirror
+    return VERIF if os.path.realpath(mirror.REPO) == '/repo' else os.path.join('/tmp', 'verif-scratch-out')
+
+
 def write_replay(prop, idx, rec):
-    d = os.path.join(VERIF, 'replays', prop, '%03d' % idx)
+    d = os.path.join(out_root(), 'replays', prop, '%03d' % idx)
     if os.path.exists(d):
         shutil.rmtree(d)
     os.makedirs(d)
@@ -207,7 +235,7 @@ def write_replay(prop, idx, rec):
 
 
 def write_evidence(prop, ev):
-    d = os.path.join(VERIF, 'evidence')
+    d = os.path.join(out_root(), 'evidence')
     os.makedirs(d, exist_ok=True)
     p = os.path.join(d, '%s.json' % prop)
     json.dump(ev, open(p + '.tmp', 'w'), indent=1, default=str)
